@@ -58,12 +58,10 @@ class Shuffle(pipes.Shuffle, EnvironmentFilter):
 
                 # np.corrcoef(R1,R2)
 
-            old_seed = self._seed
+            #the changed seed is local to this call. Writing it to self._seed around
+            #the yield would leave it behind whenever a reader abandons the iterator.
             new_seed = self._seed * 3.21 if self._seed is not None else self._seed
-
-            self._seed = new_seed
-            yield from super().filter(interactions)
-            self._seed = old_seed
+            yield from CobaRandom(new_seed).shuffle(list(interactions),inplace=True)
 
         else:
             yield from super().filter(interactions)
